@@ -46,7 +46,9 @@ MentionsP == Templates \ {"selfbox", "selfvec", "selfkw", "selfpathq", "skipNoIn
 \* the where-clause must not depend on it
 \* "revattr": the attribute lists in the REVERSE of the declaration order (skip_type_params(U, T), bounds(U: .., T: ..), the
 \* bounds attribute before the skip attribute): spelling only, nothing may depend on the order in which a list names parameters
-Modifiers == {"lifetime", "lifetime2", "const", "default", "inline", "where", "skip", "custom", "enum", "tuple", "splitattr", "revattr"}
+\* "cratepath": #[scale_info(crate = ::sinfo)] with the library linked under that name and NOT reachable as ::scale_info:
+\* every path the derive emits (trait, builders, prelude, HasCompact bounds) must go through the given crate path
+Modifiers == {"lifetime", "lifetime2", "const", "default", "inline", "where", "skip", "custom", "enum", "tuple", "splitattr", "revattr", "cratepath"}
 Params == {"T", "U"}
 VARIABLE d
 \* d = [np |-> 1..2, fields |-> Seq([t, p]), mods |-> SUBSET Modifiers]
@@ -59,6 +61,7 @@ FieldsOf(np) == LET ps == IF np = 1 THEN {"T"} ELSE Params
                 \cup (IF TwoFields THEN {<<f, g>> : f \in {[t |-> t, p |-> "T"] : t \in Templates}, g \in {[t |-> t, p |-> p] : t \in {"direct", "phantom", "assoc", "selfassoc", "skipNoInfoG", "vecassoc", "compactp", "compactassoc"}, p \in ps}} ELSE {})
 \* always-covered pairs (interactions of the attribute paths with lifetimes and with skipping)
 CorePairs == {{"custom", "lifetime"}, {"custom", "lifetime2"}, {"skip", "custom"}, {"skip", "enum"}, {"skip", "where"}, {"skip", "inline"}, {"skip", "lifetime"}, {"splitattr", "enum"}, {"splitattr", "tuple"}, {"splitattr", "custom"},
+              {"cratepath", "skip"}, {"cratepath", "custom"}, {"cratepath", "enum"}, {"cratepath", "tuple"}, {"cratepath", "lifetime"}, {"cratepath", "skip", "custom"},
               {"revattr", "skip"}, {"revattr", "custom"}, {"revattr", "skip", "custom"}, {"revattr", "skip", "custom", "enum"}, {"revattr", "skip", "where"},
               {"where", "custom"}, {"inline", "custom"}, {"const", "custom"}, {"default", "custom"}, {"enum", "custom"}}      \* bounds(..) replaces the GENERATED bounds only
 ModSets == {M \in SUBSET Modifiers : (Cardinality(M) <= (IF Pairwise THEN 2 ELSE 1) \/ M \in CorePairs) /\ ~({"lifetime", "lifetime2"} \subseteq M) /\ ~({"enum", "tuple"} \subseteq M)
